@@ -19,7 +19,8 @@ func init() {
 			"results of Metastore.Load/LoadLatest and Loader.Load, the ParentKeyMeta / Key fields of records — is dominated by a non-nil test of the same value, through helper parameters (all call sites), " +
 			"closure captures and call results; (length-guard) the nonce/ciphertext slicing in Decrypt is dominated by len(data) >= NonceSize(); (authenticated-only) the cipher is crypto/cipher.NewGCM over " +
 			"crypto/aes.NewCipher and the data result of every AEAD.Decrypt / Open is used only where err is known nil; (errors-propagate) every error on the decrypt path is tested and its non-nil edge " +
-			"reaches only non-nil error returns. That tampered ciphertext fails authentication is a property of AES-GCM and is not decided.",
+			"reaches only non-nil error returns; (success-carries-decrypted-data) a nil-error return of a ([]byte, error) function on the path carries the checked result of the next decrypt step, never nil / a literal / `nil, err` with err known nil; " +
+			"(result-used-only-after-error-check) a pointer result is used as a receiver (also in a defer) only where its error is known nil; (no-deref-of-known-nil) nothing is dereferenced on an edge that established it nil. That tampered ciphertext fails authentication is a property of AES-GCM and is not decided.",
 		NotDecided:  []string{"that tampered/spliced ciphertext fails authentication (property of AES-GCM)", "fuzzing of arbitrary bytes", "panics inside dependencies (encoding/json, AWS SDKs, crypto)", "nil-ness of values that do not trace back to a declared nullable source (assumed non-nil)"},
 		Assumptions: []string{"declared nullable sources: Metastore.Load/LoadLatest and Loader.Load results, EnvelopeKeyRecord.ParentKeyMeta, DataRowRecord.Key", "accessor closures run synchronously where they are created"},
 		Tech:        "static analysis: targeted nil-guard dominance (access-path facts, helper-parameter and closure summaries) + error-discipline on SSA",
